@@ -4,7 +4,7 @@
    the API calls; all schedules = all label sequences; repaired code, fixes/C17.patch).
    Specification: spec/SeederSpec.v. *)
 From Coq Require Import NArith List Bool.
-From LV Require Import model.Seeder spec.SeederSpec proofs.SeederProofs proofs.SeederQueues proofs.SeederSessions proofs.SeederLifetime.
+From LV Require Import model.Seeder spec.SeederSpec proofs.SeederProofs proofs.SeederQueues proofs.SeederSessions proofs.SeederLifetime proofs.SeederCounts.
 Import ListNotations.
 Local Open Scope N_scope.
 
@@ -49,6 +49,13 @@ Theorem C17_session_content : forall cfg db ops,
     (forall l1 r l2, sent = l1 ++ r :: l2 -> rs_done r = true ->
        l2 = [] /\ items_of sent = range_items db a b).
 Proof. exact session_content. Qed.
+
+(* the boolean checks the driver evaluates on the implementation's logs decide the statements
+   of C17_session_content *)
+Theorem C17_spec_prefix_decides : forall l m, is_prefix l m = true <-> exists rest, l ++ rest = m.
+Proof. exact is_prefix_spec. Qed.
+Theorem C17_spec_equal_decides : forall l m, items_eqb l m = true <-> l = m.
+Proof. exact items_eqb_spec. Qed.
 
 (* non-vacuity: a sorted item list and a history in which a session is created, resumed and
    finished *)
@@ -96,28 +103,48 @@ Theorem C17_resume_no_creation : forall cfg st rq ss,
   \/ snd (reader_top v_fixed cfg st rq) = [EMisb (r_peer rq) (r_serial rq)] /\ s_orig ss <> r_start rq.
 Proof. exact resume_no_creation. Qed.
 
-(* What is not proved (kept visible): progress.  "exactly one done response once enough chunks
-   were requested" is proved as "at most one, last, and only when the range is complete"
-   (C17_session_content); that a request for n chunks yields n responses unless the session
-   finishes needs the reader and the senders to be scheduled and is a liveness statement about
-   the runtime.  It is checked on every generated history by the executable specification
-   (SeederSpec.counts_ok) for both the model and the implementation. *)
-Definition C17_full : Prop :=
-  forall cfg db ops, sorted_keys db ->
+(* Chunk counts (repaired code).  Whenever the reader is between two requests, every request
+   that produced a response got exactly as many responses as chunks it asked for, or its
+   session has finished (the incarnation has its done response): "exactly one done response
+   once enough chunks were requested", together with C17_session_content. *)
+Theorem C17_requests_complete : forall cfg db ops,
+  sorted_keys db ->
   let st := fst (run v_fixed cfg db (init cfg) ops) in
   let tr := snd (run v_fixed cfg db (init cfg) ops) in
-  st_reader st = RIdle ->                      (* the reader is between two requests *)
+  st_reader st = RIdle ->
   forall r, In r (enqs tr) ->
-    (* the request that r serves got as many responses as chunks it asked for ... *)
     N.of_nat (length (filter (fun r' => r_serial (rs_req r') =? r_serial (rs_req r)) (enqs tr)))
       = r_chunks (rs_req r)
-    (* ... or its session finished *)
     \/ exists r', In r' (enqs tr) /\ rs_inc r' = rs_inc r /\ rs_done r' = true.
+Proof. exact requests_complete. Qed.
+
+(* ... and while a request is being served it has produced i <= MaxChunks responses *)
+Theorem C17_requests_bounded : forall cfg db ops,
+  sorted_keys db ->
+  let st := fst (run v_fixed cfg db (init cfg) ops) in
+  let tr := snd (run v_fixed cfg db (init cfg) ops) in
+  forall rq i ss, st_reader st = RChunk rq i ss ->
+    count_serial (r_serial rq) (enqs tr) = i /\ i <= r_chunks rq.
+Proof. exact requests_bounded. Qed.
+
+(* What is not proved (kept visible): progress of the runtime.  All theorems above are safety
+   statements over all schedules; that the reader does return to its select and that every
+   enqueued response is eventually sent needs fair scheduling of the goroutines.  The
+   possibility form (quiescence is reachable from every reachable state) is: *)
+Definition C17_full : Prop :=
+  forall cfg db ops, sorted_keys db -> 1 <= c_threads cfg -> 0 < c_limit cfg ->
+  exists ops',
+    let st := fst (run v_fixed cfg db (init cfg) (ops ++ ops')) in
+    st_reader st = RIdle /\ st_chreq st = [] /\ st_chunreg st = [] /\ concat (st_senders st) = [].
 
 Print Assumptions C17_limits.
 Print Assumptions C17_session_content.
+Print Assumptions C17_spec_prefix_decides.
+Print Assumptions C17_spec_equal_decides.
 Print Assumptions C17_peer_sessions_exact.
 Print Assumptions C17_session_resumable.
 Print Assumptions C17_resume_no_creation.
+Print Assumptions C17_requests_complete.
+Print Assumptions C17_requests_bounded.
 Print Assumptions C17_pending_bound.
 Print Assumptions C17_fifo.
